@@ -300,6 +300,15 @@ class Poll(BasePoller):
             self._read_ctrl()
             return
 
+        if not isinstance(fd, int):
+            try:
+                current = fd.fileno()
+            except (OSError, ValueError):
+                current = -1
+            if current != fileno:
+                # closed while registered; the number may belong to another file by now
+                event = select.POLLNVAL
+
         if event & self._disconnected_flag and not (event & select.POLLIN):
             self.fire(_disconnect(fd), self.getTarget(fd))
             self._poller.unregister(fileno)
